@@ -35,17 +35,12 @@ def allocs_valid(allocs):
 
 @spec
 def used(allocs, old_id, n, which):
-    """Sum over allocs[:n], the one named old_id excluded, of resource `which`."""
-    return sum_range(lambda j: 0 if allocs[j]['_id'] == old_id else
+    """Sum over allocs[:n], the one named old_id excluded, of resource `which`.
+    (fold parameters are explicit so that the recursive function is the same at every use)"""
+    return sum_range(lambda j, allocs, old_id: 0 if allocs[j]['_id'] == old_id else
                      (cpu_val(allocs[j]['cpu']) if which == 0 else
-                      (size_val(allocs[j]['disk']) if which == 1 else size_val(allocs[j]['memory']))), n)
-
-
-@spec
-def used_trait(allocs, old_id, n, trait, which):
-    return sum_range(lambda j: 0 if (allocs[j]['_id'] == old_id or trait not in allocs[j]['traits']) else
-                     (cpu_val(allocs[j]['cpu']) if which == 0 else
-                      (size_val(allocs[j]['disk']) if which == 1 else size_val(allocs[j]['memory']))), n)
+                      (size_val(allocs[j]['disk']) if which == 1 else size_val(allocs[j]['memory']))),
+                     n, allocs, old_id)
 
 
 contract('treadmill.utils:cpu_units', types={'value': 'Str', 'return': 'Int'},
@@ -78,3 +73,151 @@ contract(M + ':_check_limit',
                                        'size_val(request["disk"]) <= limit["disk"] and '
                                        'size_val(request["memory"]) <= limit["memory"])']},
          props=['C19'])
+
+
+# ---------------------------------------------------------------- per-trait accounting
+@spec
+def has_trait(a, t):
+    """t occurs in the reservation's trait list (recursive membership)."""
+    return t in a['traits']
+
+
+@spec
+def traits_distinct(a):
+    """LDAP multi-valued attributes are sets: no trait is listed twice."""
+    return forall(lambda k: implies(0 <= k and k < len(a['traits']),
+                                    not in_prefix(a['traits'], k, a['traits'][k])), 'Int')
+
+
+@spec
+def rsrc_val(a, which):
+    return cpu_val(a['cpu']) if which == 0 else (size_val(a['disk']) if which == 1 else size_val(a['memory']))
+
+
+@spec
+def used_by_trait(allocs, old_id, n, t, which):
+    """Sum over allocs[:n] carrying trait t (old_id excluded) of resource `which`."""
+    return sum_range(lambda j, allocs, old_id, t: rsrc_val(allocs[j], which)
+                     if (allocs[j]['_id'] != old_id and has_trait(allocs[j], t)) else 0, n, allocs, old_id, t)
+
+
+@spec
+def limit_valid(l):
+    return valid_cpu(l['cpu']) and valid_size(l['disk']) and valid_size(l['memory'])
+
+
+@spec
+def limits_ok(limits):
+    return (all(limit_valid(l) for l in limits) and
+            forall(lambda a, b: implies(0 <= a and a < b and b < len(limits),
+                                        limits[a]['trait'] != limits[b]['trait']), 'Int', 'Int'))
+
+
+contract(M + ':_calc_free_traits',
+         types={'limits': 'List[LimitRec]', 'allocs': 'List[AllocRec]', 'old_id': 'Name',
+                'return': 'Dict[Name,FreeRec]', 'free': 'Dict[Name,FreeRec]'},
+         requires=['limits_ok(limits)', 'allocs_valid(allocs)',
+                   'all(traits_distinct(a) for a in allocs)'],
+         ensures=['forall(lambda j: implies(0 <= j and j < len(limits), limits[j]["trait"] in result and '
+                  ' result[limits[j]["trait"]]["cpu"] == cpu_val(limits[j]["cpu"]) - '
+                  '   used_by_trait(allocs, old_id, len(allocs), limits[j]["trait"], 0)), "Int")',
+                  'forall(lambda j: implies(0 <= j and j < len(limits), '
+                  ' result[limits[j]["trait"]]["disk"] == size_val(limits[j]["disk"]) - '
+                  '   used_by_trait(allocs, old_id, len(allocs), limits[j]["trait"], 1)), "Int")',
+                  'forall(lambda j: implies(0 <= j and j < len(limits), '
+                  ' result[limits[j]["trait"]]["memory"] == size_val(limits[j]["memory"]) - '
+                  '   used_by_trait(allocs, old_id, len(allocs), limits[j]["trait"], 2)), "Int")'],
+         modifies=['alloc'], props=['C19'])
+
+# loop 0: one fresh record per limit
+invariant(M + ':_calc_free_traits', 0, 'for limit in limits',
+          ['forall(lambda j: implies(0 <= j and j < _i, limits[j]["trait"] in free and '
+           ' not old(alive(free[limits[j]["trait"]])) and '
+           ' free[limits[j]["trait"]]["cpu"] == cpu_val(limits[j]["cpu"]) and '
+           ' free[limits[j]["trait"]]["disk"] == size_val(limits[j]["disk"]) and '
+           ' free[limits[j]["trait"]]["memory"] == size_val(limits[j]["memory"])), "Int")',
+           'forall(lambda t: implies(t in free, alive(free[t]) and not old(alive(free[t])) and '
+           '   exists(lambda j: 0 <= j and j < _i and limits[j]["trait"] == t, "Int")), "Name")',
+           'forall(lambda t, u: implies(t in free and u in free and t != u, free[t] != free[u]), "Name", "Name")'])
+# loop 1: reservations processed so far are accounted for every trait in `free`
+invariant(M + ':_calc_free_traits', 1, 'for alloc in allocs',
+          ['free == at_loop_entry(free)',
+           'forall(lambda t: implies(t in free, '
+           ' free[t]["cpu"] == at_loop_entry(free[t]["cpu"]) - used_by_trait(allocs, old_id, _i, t, 0) and '
+           ' free[t]["disk"] == at_loop_entry(free[t]["disk"]) - used_by_trait(allocs, old_id, _i, t, 1) and '
+           ' free[t]["memory"] == at_loop_entry(free[t]["memory"]) - used_by_trait(allocs, old_id, _i, t, 2)), "Name")'])
+# loop 2: traits of the current reservation processed so far
+invariant(M + ':_calc_free_traits', 2, "for trait in alloc['traits']",
+          ['free == at_loop_entry(free)',
+           'forall(lambda t: implies(t in free, '
+           ' free[t]["cpu"] == at_loop_entry(free[t]["cpu"]) - '
+           '    (cpu_val(alloc["cpu"]) if in_prefix(alloc["traits"], _i, t) else 0) and '
+           ' free[t]["disk"] == at_loop_entry(free[t]["disk"]) - '
+           '    (size_val(alloc["disk"]) if in_prefix(alloc["traits"], _i, t) else 0) and '
+           ' free[t]["memory"] == at_loop_entry(free[t]["memory"]) - '
+           '    (size_val(alloc["memory"]) if in_prefix(alloc["traits"], _i, t) else 0)), "Name")'])
+
+
+# ---------------------------------------------------------------- the acceptance check itself
+# Dependencies (assumed, DESIGN 3.6): the admin (LDAP) layer returns schema-valid records;
+# multi-valued LDAP attributes are sets (no trait listed twice, no two limits for one trait).
+# LDAP_allocs / LDAP_part: what the directory holds for this cell and partition at the
+# time of the request (ghost constants: the check reads them once each).
+ghostvar('LDAP_allocs', 'List[AllocRec]')
+ghostvar('LDAP_part', 'PartRec')
+cls('AdminCellAlloc', None, {})
+contract(M + ':_admin_cell_alloc', types={'return': 'AdminCellAlloc'}, assumed=True, modifies=['alloc'])
+contract('lib:AdminCellAlloc.list', types={'$params': ['self', 'filt'], 'return': 'List[AllocRec]'},
+         ensures=['result == LDAP_allocs', 'allocs_valid(result)', 'all(traits_distinct(a) for a in result)'],
+         modifies=['alloc'], assumed=True)
+contract(M + ':_partition_get', types={'partition': 'Name', 'cell': 'Name', 'return': 'PartRec'},
+         ensures=['result == LDAP_part',
+                  'valid_cpu(result["cpu"])', 'valid_size(result["disk"])', 'valid_size(result["memory"])',
+                  'limits_ok(result["limits"])'],
+         modifies=['alloc'], assumed=True,
+         note='reads LDAP; the NoSuchObjectResult fallback literal is schema-valid')
+
+
+@spec
+def rsrc_has_trait(rsrc, t):
+    return rsrc['has_traits'] and t in rsrc['traits']
+
+
+@spec
+def fits_overall(rsrc, part, allocs, old_id):
+    return (cpu_val(rsrc['cpu']) <= cpu_val(part['cpu']) - used(allocs, old_id, len(allocs), 0) and
+            size_val(rsrc['disk']) <= size_val(part['disk']) - used(allocs, old_id, len(allocs), 1) and
+            size_val(rsrc['memory']) <= size_val(part['memory']) - used(allocs, old_id, len(allocs), 2))
+
+
+@spec
+def fits_limit(rsrc, l, allocs, old_id):
+    return (cpu_val(rsrc['cpu']) <= cpu_val(l['cpu']) - used_by_trait(allocs, old_id, len(allocs), l['trait'], 0) and
+            size_val(rsrc['disk']) <= size_val(l['disk']) - used_by_trait(allocs, old_id, len(allocs), l['trait'], 1) and
+            size_val(rsrc['memory']) <= size_val(l['memory']) - used_by_trait(allocs, old_id, len(allocs), l['trait'], 2))
+
+
+@spec
+def fits_all(rsrc, old_id):
+    """The property's acceptance condition, over what the directory holds."""
+    return (fits_overall(rsrc, LDAP_part, LDAP_allocs, old_id) and
+            forall(lambda j: implies(0 <= j and j < len(LDAP_part['limits']) and
+                                     rsrc_has_trait(rsrc, LDAP_part['limits'][j]['trait']),
+                                     fits_limit(rsrc, LDAP_part['limits'][j], LDAP_allocs, old_id)), 'Int'))
+
+
+@spec
+def old_id_of(allocation, cell):
+    return name_of(str_of(allocation) + '/' + str_of(cell))
+
+
+contract(M + ':_check_capacity',
+         types={'cell': 'Name', 'allocation': 'Name', 'rsrc': 'RsrcRec',
+                'limits': 'List[LimitRec]', 'free_by_trait': 'Dict[Name,FreeRec]'},
+         requires=['valid_cpu(rsrc["cpu"])', 'valid_size(rsrc["disk"])', 'valid_size(rsrc["memory"])'],
+         ensures=['fits_all(rsrc, old_id_of(allocation, cell))'],
+         raises={'InvalidInputError': ['not fits_all(rsrc, old_id_of(allocation, cell))']},
+         modifies=['alloc'], props=['C19'])
+invariant(M + ':_check_capacity', 0, 'for limit in limits',
+          ['forall(lambda j: implies(0 <= j and j < _i, '
+           ' fits_limit(rsrc, limits[j], LDAP_allocs, old_id_of(allocation, cell))), "Int")'])
